@@ -155,36 +155,14 @@ Proof.
 Qed.
 
 (* ---------------------------------------------------------------- values set by before-hooks *)
-(* the update payload map: the hook's value is the stored one when the hook names the column the way
-   the payload does, or by its database name *)
-Lemma map_get_set_same : forall k v m, map_get k (map_set k v m) = Some v.
-Proof.
-  intros k v m. unfold map_get. induction m as [|[k' v'] m IH]; cbn.
-  - destruct k; reflexivity.
-  - destruct (pkey_eqb k k') eqn:E; cbn.
-    + destruct k, k'; try discriminate; reflexivity.
-    + assert (E' : pkey_eqb k' k = false) by (destruct k, k'; try discriminate; reflexivity).
-      rewrite E'. exact IH.
-Qed.
+(* the update payload map: after SetColumn the map holds the hook's value and nothing else for the
+   column, whatever spelling the hook or the caller used *)
+Lemma filter_false_nil {A} (l : list A) : filter (fun _ => false) l = [].
+Proof. induction l; [reflexivity | exact IHl]. Qed.
 
-Lemma map_val_set_db : forall v m, map_val (map_set KDb v m) = Some v.
-Proof. intros. unfold map_val. rewrite map_get_set_same. reflexivity. Qed.
-
-Lemma map_get_set_other : forall k k' v m, k <> k' -> map_get k (map_set k' v m) = map_get k m.
+Lemma map_val_set : forall k v m, map_val (map_set k v m) = Some v.
 Proof.
-  intros k k' v m NE. unfold map_get. induction m as [|[k2 v2] m IH]; cbn.
-  - destruct k, k'; try congruence; reflexivity.
-  - destruct (pkey_eqb k' k2) eqn:E; cbn.
-    + assert (k' = k2) by (destruct k', k2; try discriminate; reflexivity). subst k2.
-      assert (E' : pkey_eqb k' k = false) by (destruct k, k'; try congruence; reflexivity).
-      rewrite E'. reflexivity.
-    + destruct (pkey_eqb k2 k); [reflexivity|exact IH].
-Qed.
-
-Lemma map_val_set_field : forall v m, map_get KDb m = None -> map_val (map_set KField v m) = Some v.
-Proof.
-  intros v m H. unfold map_val. rewrite map_get_set_other by discriminate. rewrite H.
-  apply map_get_set_same.
+  intros k v m. unfold map_val, map_set, map_get. rewrite filter_false_nil. destruct k; reflexivity.
 Qed.
 
 (* the statement of Create stores, for every record, the value the record holds at that moment *)
